@@ -689,6 +689,15 @@ func c04Live(r *Run) {
 	serverSide := T.Bool("target.server", 0.5)
 	n := 1 + T.Draw("nframes", 6)
 	opts := LinkOpts{Capacity: []int{1 << 20, 64, 4096}[T.DrawP("capacity", 3, 0.6)], Latency: ms([]int{0, 1}[T.Draw("latency", 2)]), ChunkReads: T.Bool("chunkReads", 0.6)}
+	// stall: the peer delivers only part of its last frame or segment and then neither sends nor leaves.
+	// The server connection's idle timeout (2 s here) is then the only bound on that decode: the
+	// connection has to end by itself.
+	stall := serverSide && T.Bool("stall", 0.25)
+	idleTimeout := time.Hour
+	if stall {
+		idleTimeout = 2 * time.Second
+	}
+	r.Config["stall"] = fmt.Sprint(stall)
 	r.Config["version"] = v.String()
 	r.Config["compression"] = string(comp)
 	r.Config["target"] = map[bool]string{true: "server connection", false: "client connection"}[serverSide]
@@ -733,6 +742,22 @@ func c04Live(r *Run) {
 		r.Faults[[]string{"flip", "set16", "set32", "trunc", "dup", "delete", "garbage", "intact"}[m.Kind]]++
 		return m.apply(wire), KindOf(f.Body.Message) + " " + m.String()
 	}
+	// a NON-self-contained segment (valid checksums) that starts a multi-segment frame whose header
+	// declares an extreme body length
+	extremeLens := []uint32{0xfffffff6, 0xfffffff5, 0xfffffc00, 0x7ffffff7, 0x7fffffff, 0x80000000, 0x40000000, 0xffffffff, 0}
+	multiSegStart := func(response bool, stream int16, lz4Segments bool) ([]byte, string) {
+		f := GenFrame(T, GenOpts{Version: v, Requests: !response, Responses: response, NoStartup: true, MaxBytes: 200}, stream)
+		var buf bytes.Buffer
+		if err := codec.EncodeFrame(f, &buf); err != nil || buf.Len() < 9 {
+			return nil, ""
+		}
+		wire := append([]byte(nil), buf.Bytes()...)
+		l := extremeLens[T.Draw("multiseg.len", len(extremeLens))]
+		wire[5], wire[6], wire[7], wire[8] = byte(l>>24), byte(l>>16), byte(l>>8), byte(l)
+		keep := 9 + T.Draw("multiseg.extra", minInt(len(wire)-9, 40)+1)
+		r.Faults["multi_segment_start_with_extreme_length"]++
+		return RBuildSegment(wire[:keep], false, lz4Segments, T.Bool("rawseg", 0.5)), fmt.Sprintf("first segment of a multi-segment %s declaring body length %#x", KindOf(f.Body.Message), l)
+	}
 	var sent []string
 	var tasks []*c16Task
 	mk := func(name string) *c16Task { t := &c16Task{name: name}; tasks = append(tasks, t); return t }
@@ -740,7 +765,7 @@ func c04Live(r *Run) {
 	r.Go("main", func() {
 		defer func() { mainT.done = true }()
 		if serverSide {
-			sc, err := client.VerifNewServerConnection(b, ctx, nil, 64, time.Hour, nil, nil, func(*client.CqlServerConnection) {})
+			sc, err := client.VerifNewServerConnection(b, ctx, nil, 64, idleTimeout, nil, nil, func(*client.CqlServerConnection) {})
 			if err != nil {
 				return
 			}
@@ -772,8 +797,36 @@ func c04Live(r *Run) {
 				if env == nil {
 					continue
 				}
-				sent = append(sent, desc)
 				var werr error
+				if peer.Modern && T.Bool("hostile.multiseg", 0.25) {
+					if seg, d := multiSegStart(false, int16(i+1), peer.lz4Segments()); seg != nil {
+						sent = append(sent, d)
+						werr = peer.Write(seg)
+						r.Yield("peer.sent")
+						if werr != nil {
+							break
+						}
+						continue
+					}
+				}
+				if stall && i == n-1 {
+					// only part of the last one, then silence with the connection open
+					whole := env
+					if peer.Modern {
+						whole = RBuildSegment(env[:minInt(len(env), RMaxPayload)], true, peer.lz4Segments(), T.Bool("rawseg", 0.5))
+					}
+					part := whole[:1+next(len(whole)-1)]
+					sent = append(sent, fmt.Sprintf("%s, only the first %d of %d bytes, then the peer stalls", desc, len(part), len(whole)))
+					_ = peer.Write(part)
+					r.Faults["peer_stalls_mid_frame"]++
+					r.Yield("peer.stalled")
+					r.Sleep(30 * time.Second) // fifteen idle timeouts
+					if !sc.IsClosed() && r.S.HugeAllocs == 0 { // a refused huge allocation ended the reading goroutine: not judged, see below
+						r.Violate(P, "terminates", "blocked-on-stalled-peer", "the peer sent %d of %d bytes of a frame and then nothing (connection open): %v later the server connection (idle timeout %v) is still waiting for the rest", len(part), len(whole), 30*time.Second, idleTimeout)
+					}
+					break
+				}
+				sent = append(sent, desc)
 				if peer.Modern {
 					if T.Bool("hostile.segment", 0.3) {
 						seg := RBuildSegment(env[:minInt(len(env), RMaxPayload)], true, peer.lz4Segments(), false)
@@ -853,8 +906,18 @@ func c04Live(r *Run) {
 					if env == nil {
 						continue
 					}
-					sent = append(sent, desc)
 					var werr error
+					if peer.Modern && T.Bool("hostile.multiseg", 0.25) {
+						if seg, d := multiSegStart(true, f.H.Stream, peer.lz4Segments()); seg != nil {
+							sent = append(sent, d)
+							if werr = peer.Write(seg); werr != nil {
+								return
+							}
+							r.Yield("peer.sent")
+							continue
+						}
+					}
+					sent = append(sent, desc)
 					if peer.Modern {
 						if T.Bool("hostile.segment", 0.3) {
 							seg := RBuildSegment(env[:minInt(len(env), RMaxPayload)], true, peer.lz4Segments(), false)
